@@ -1,6 +1,7 @@
 package checks
 
 import (
+	"flag"
 	"fmt"
 	"math/rand"
 	"strings"
@@ -168,7 +169,48 @@ func c03Long(c *core.Ctx) {
 	}
 }
 
+// c03Tree: command trees (some sub-commands declare -h / --help / -V themselves, some declare nothing) on hostile
+// command lines made of command names, help and version tokens, -- and junk: Run ends in a documented way
+func c03Tree(c *core.Ctx) {
+	root, version := treeFor(c, "C03", 1, false)
+	var names []string
+	var walk func(t *drive.Cmd)
+	walk = func(t *drive.Cmd) {
+		if t.Parent != nil {
+			names = append(names, t.Aliases...)
+		}
+		for _, k := range t.Kids {
+			walk(k)
+		}
+	}
+	walk(root)
+	argv, _ := treeInvocation(c.R, root, version, 50)
+	extra := []string{"-h", "--help", "-V", "--version", "--", "-h=1", "--help=x", "-hv", "--host", "3", "-", "nosuch", "--host=h"}
+	for k := c.R.Intn(4); k > 0; k-- {
+		tok := extra[c.R.Intn(len(extra))]
+		if len(names) > 0 && c.R.Intn(3) == 0 {
+			tok = names[c.R.Intn(len(names))]
+		}
+		i := c.R.Intn(len(argv) + 1)
+		argv = append(argv[:i], append([]string{tok}, argv[i:]...)...)
+	}
+	d := treeDesc{Tree: treeStr(root), Argv: argv}
+	c.Journal(d)
+	o := drive.Run(&drive.App{Root: root, Policy: flag.ContinueOnError, Version: version}, argv)
+	c.LibDone()
+	c.Eval()
+	c.Inc("gen_command_tree")
+	c.Nontrivial(d.Tree, fmt.Sprintf("%q", argv))
+	if o.SpecErr != nil || o.Pan != nil || o.Exit != nil || (o.Ran > 0 && o.Err != nil) || o.Ran > 1 {
+		c.Violation(fmt.Sprintf("undocumented outcome on a command tree: specerr=%v panic=%v exit=%v ran=%d err=%v", o.SpecErr, o.Pan, o.Exit != nil, o.Ran, o.Err), nil, nil)
+	}
+}
+
 func runC03(c *core.Ctx) {
+	if c.Index%50 == 48 {
+		c03Tree(c)
+		return
+	}
 	if c.Index%50 == 49 {
 		c03Long(c)
 		return
